@@ -2,6 +2,7 @@ package worker
 
 import (
 	"fmt"
+	"os"
 	"strings"
 	"testing"
 	"testing/synctest"
@@ -11,6 +12,7 @@ import (
 	"istio.io/istio/pilot/pkg/features"
 	"istio.io/istio/pilot/pkg/model"
 	v3 "istio.io/istio/pilot/pkg/xds/v3"
+	"istio.io/istio/pkg/config/host"
 	"istio.io/istio/pkg/simhook"
 	"verif/sim/engine"
 )
@@ -72,7 +74,7 @@ func runC06(t *testing.T, r *engine.Run) {
 	features.XDSCacheMaxSize = []int{2, 8, prevSize}[tp.Choose(3, "cacheSize")]
 	defer func() { features.XDSCacheMaxSize = prevSize }()
 	r.Config["cacheSize"] = fmt.Sprint(features.XDSCacheMaxSize)
-	inst := newWisInstance(t, "main", wisOpts{debounceAfter: db.after, debounceMax: db.max})
+	inst := newWisInstance(t, "main", wisOpts{debounceAfter: db.after, debounceMax: db.max, noCache: os.Getenv("VERIF_DEBUG_NOCACHE") != ""}) // the debug switch tells a cache defect from a convergence defect when analysing a replay
 	defer func() {
 		inst.Close()
 		synctest.Wait()
@@ -143,6 +145,13 @@ func runC06(t *testing.T, r *engine.Run) {
 				key := wd.everTags() + "|" + d[0].typ + ":" + d[0].kind
 				if d[0].field != "" {
 					key += ":" + d[0].field
+				}
+				if h := os.Getenv("VERIF_DEBUG_DR"); h != "" { // analysis aid: which DestinationRules each proxy's scope holds for a host
+					for _, con := range inst.fds.Discovery.AllClients() {
+						p := con.Proxy()
+						dr := p.SidecarScope.DestinationRule(model.TrafficDirectionOutbound, p, host.Name(h))
+						r.Logf("debug: %s scope=%s/%s rule for %s: %v", p.ID, p.SidecarScope.Namespace, p.SidecarScope.Name, h, dr.GetFrom())
+					}
 				}
 				r.Fail("c06.differs_from_cacheless_generation", key, "after %s: proxy %s holds something a cache-disabled control plane does not generate for it:%s", after, c.name, fmtDiffs(d))
 				return
